@@ -309,6 +309,7 @@ def engine_cases(draw):
             "kill_after": draw(st.sampled_from([0.0, 0.5, 2.0, 5.0, 5.9, 6.5, 8.0, 20.0])),
             "again_after": draw(st.sampled_from([1.0, 12.0, 40.0])),
             "maxRestarts": draw(st.sampled_from([None, None, 1, 5])),
+            "backend": draw(st.sampled_from(["local", "local", "simulator"])),
             "sched": draw(st.sampled_from(["fifo", "fifo", "lifo"]))}
 
 
@@ -330,6 +331,8 @@ def check_engine(case, ctx: Ctx):
         comp = {"name": "Comp", "stage": 0, "command": {"executable": "echo", "arguments": "x"}}
         if wa:
             comp["workflowAttributes"] = wa
+        if case.get("backend", "local") != "local":
+            comp["resourceManager"] = {"config": {"backend": case["backend"]}}
         exp = pkg.experiment_from_flowir({"components": [comp]}, loc)
         now = lambda: (KERNEL.clock - K.EPOCH).total_seconds()
         backend = rtdriver.ScriptedBackend({"stage0.Comp": [case["first"], case["second"]]},
@@ -361,6 +364,12 @@ def check_engine(case, ctx: Ctx):
         first_reason = eng.exitReason()
         code = eng.restart()
         desc = "case=%s first exit=%s restart code=%s" % (case, first_reason, code)
+        restart_on = job.workflowAttributes.get("restartHookOn") or []
+        if code == codes.restartCodes["RestartInitiated"] and first_reason not in restart_on and \
+                first_reason != "SubmissionFailed":
+            raise Violation("restart-initiated-for-unlisted-reason",
+                            "restart() returned RestartInitiated after exit reason %s (restartHookOn %s, backend %s); %s" % (
+                                first_reason, restart_on, case.get("backend"), desc))
         if code != codes.restartCodes["RestartInitiated"]:
             ctx.rec.label("engine:first-restart:" + str(code))
             pump(20.0)
